@@ -30,19 +30,23 @@ CONSTANTS
 (* Scalars offered as r, s (ECDSA), t (tweak).  n = group order, p = field prime.                                *)
 (*   zero 0 | one 1 | mid a generic value in [2, n-3] | nm2 n-2 | nm1 n-1 | n | npk n+k, k small | p | max 2^256-1 *)
 (*   b33  v+n >= 2^256 for a generic v: needs 33 bytes                                                            *)
+(*   wrap (r only) r = k < p - n where n+k is the abscissa of the nonce point R: SEC 1 4.1.3 takes r = x(R) mod n,  *)
+(*        so r = x(R) - n for the (about 2^128 of 2^256) points with x(R) in [n, p); verification must reduce x(R)  *)
+(*        modulo n before comparing, and recovery must try x = r + n (recovery id bit 1)                           *)
 ScalarClasses == {"zero", "one", "mid", "nm2", "nm1", "n", "npk", "p", "max", "b33"}
+RClasses == ScalarClasses \cup {"wrap"}
 
 \* SEC 1 4.1.4 step 1: r, s are integers in [1, n-1]
-InRange(c) == IF Bug = "le_n" THEN c \in {"one", "mid", "nm2", "nm1", "n"}
-              ELSE c \in {"one", "mid", "nm2", "nm1"}
+InRange(c) == IF Bug = "le_n" THEN c \in {"one", "mid", "nm2", "nm1", "n", "wrap"}
+              ELSE c \in {"one", "mid", "nm2", "nm1", "wrap"}
 
 \* the class's value is not a multiple of n (so that it has an inverse / is a possible r modulo n)
 NonZeroModN(c) == c \notin {"zero", "n"}
 
 \* Facts about secp256k1 (re-checked by the harness reference on every run): is (value mod n) the x coordinate
 \* of a curve point?  1 and n-2 are, n-1 is not, p-n is, 2^256-1-n is not; k of "npk" is chosen among {1,2,3,4,6};
-\* "mid" and "b33" start from the x coordinate of a random point.
-RIsAbscissa(c) == c \in {"one", "mid", "nm2", "npk", "p", "b33"}
+\* "mid" and "b33" start from the x coordinate of a random point.  For "wrap" it is n + r that is the abscissa.
+RIsAbscissa(c) == c \in {"one", "mid", "nm2", "npk", "p", "b33", "wrap"}
 
 \* its canonical big-endian form has the top bit set (so DER needs a 00 pad; "mid" is drawn that way when needed)
 HighBit(c) == c \in {"mid", "nm2", "nm1", "n", "npk", "p", "max"}
@@ -80,7 +84,7 @@ DerKind(d) == CASE d \in {"strict", "strict_ht"} -> "exact"
 -----------------------------------------------------------------------------
 (* ECDSA acceptance (SEC 1 4.1.4).  eq = the verification equation holds for (r mod n, s mod n) and the point   *)
 (* the key octets were derived from - i.e. what an implementation without range / validity checks would test.   *)
-EcdsaCases == [tab : {"ecdsa"}, pk : PkClasses, rc : ScalarClasses, sc : ScalarClasses, eq : BOOLEAN, der : DerSet]
+EcdsaCases == [tab : {"ecdsa"}, pk : PkClasses, rc : RClasses, sc : ScalarClasses, eq : BOOLEAN, der : DerSet]
 
 EcdsaConsistent(t) ==
     /\ t.eq => RIsAbscissa(t.rc) /\ NonZeroModN(t.sc)
@@ -106,14 +110,15 @@ EcdsaVerdict(t) ==
 -----------------------------------------------------------------------------
 (* ECDSA public key recovery (SEC 1 4.1.6) from (r, s, e, recid) given as integers.                              *)
 (*   recid bit 0 = parity of y(R), bit 1 = x(R) = r + n.  ok = returns the key for which the signature verifies  *)
-RecoverCases == [tab : {"recover"}, rc : ScalarClasses \ {"b33"}, sc : ScalarClasses \ {"b33"}, recid : 0..3]
+RecoverCases == [tab : {"recover"}, rc : RClasses \ {"b33"}, sc : ScalarClasses \ {"b33"}, recid : 0..3]
 \* "b33" excluded: RecoverPublicKey takes r and s as byte strings of any length - covered by npk / max / p
 RecoverOk(t) ==     \* a key comes back
     /\ InRange(t.rc) /\ InRange(t.sc)
-    /\ t.recid < 2          \* r + n < p never holds for an r that is an abscissa we can name (p - n < 2^129): see RecoverHi
-    /\ t.rc \in {"one", "mid", "nm2"}   \* = RIsAbscissa restricted to in-range classes
-\* recid >= 2 with a small r (r + n < p): a key comes back iff r + n is an abscissa - decided by the reference
-RecoverHi(t) == t.recid >= 2 /\ t.rc = "one" /\ InRange(t.sc)
+    /\ \/ t.recid < 2 /\ t.rc \in {"one", "mid", "nm2"}      \* x(R) = r: r itself is an abscissa
+       \/ t.recid >= 2 /\ t.rc = "wrap"                      \* x(R) = r + n < p is an abscissa
+\* the other pairing of a small r with the recovery id (r = 1 with x = n+1, a "wrap" r with x = r): a key comes
+\* back iff that x happens to be an abscissa - decided by the reference
+RecoverHi(t) == InRange(t.sc) /\ ((t.recid >= 2 /\ t.rc = "one") \/ (t.recid < 2 /\ t.rc = "wrap"))
 RecoverVerdict(t) == IF RecoverHi(t) THEN "byref" ELSE IF RecoverOk(t) THEN "key" ELSE "none"
 
 -----------------------------------------------------------------------------
@@ -250,7 +255,11 @@ AcceptIffNoRule == c # NoCase /\ c.tab \in {"ecdsa", "schnorr", "tweak", "parse"
 
 \* SEC 1: the multiples of n (0 and n itself) and everything above are never an acceptable r or s
 RangeExact == c.tab = "ecdsa" /\ c.v # "reject" =>
-                  c.rc \in {"one", "mid", "nm2"} /\ c.sc \in {"one", "mid", "nm2", "nm1"}
+                  c.rc \in {"one", "mid", "nm2", "wrap"} /\ c.sc \in {"one", "mid", "nm2", "nm1"}
+
+\* a valid signature whose nonce point has x(R) >= n is a valid signature (accepted in every canonical encoding)
+WrapAccepted == \A pk \in {"comp_even", "comp_odd", "uncomp", "hyb_ok"}, sc \in {"one", "mid", "nm2", "nm1"}, d \in {"strict", "strict_ht"} \cap DerSet :
+                    EcdsaVerdict([tab |-> "ecdsa", pk |-> pk, rc |-> "wrap", sc |-> sc, eq |-> TRUE, der |-> d]) = "accept"
 
 \* a key octet string is accepted by the verifier iff the parser row for the same class accepts it
 KeyRuleUniform == c.tab = "ecdsa" /\ c.v # "reject" => ParseVerdict([tab |-> "parse", pk |-> c.pk]) = "accept"
@@ -266,7 +275,7 @@ SchnorrExact == c.tab = "schnorr" /\ c.v = "accept" => c.pk = "lift_ok" /\ c.rc 
 TweakExact == c.tab = "tweak" /\ c.v = "accept" => c.pk = "lift_ok" /\ c.x1 = "right" /\ c.x2 = "match" /\ c.sc \in {"zero", "one", "mid", "nm1"}
 
 \* recovery returns a key only for r, s in [1, n-1]
-RecoverExact == c.tab = "recover" /\ c.v = "key" => c.rc \in {"one", "mid", "nm2"} /\ c.sc \in {"one", "mid", "nm2", "nm1"}
+RecoverExact == c.tab = "recover" /\ c.v = "key" => c.rc \in {"one", "mid", "nm2", "wrap"} /\ c.sc \in {"one", "mid", "nm2", "nm1"}
 
 \* a tampered signature is never promised to verify; deterministic kinds are promised to equal the reference
 TamperRefused == tam # "" => ~Promise.verifies
